@@ -195,6 +195,42 @@ impl<S: Storage> Builder<S> {
         })
     }
 
+    /// Makes each pair of equi-join keys have the same type.
+    ///
+    /// Hash join and merge join compare keys as `DataValue`s, and values of different types
+    /// (e.g. `INT` and `BIGINT`) are never equal. Numeric keys of different types are cast to
+    /// the wider type, as the `=` operator would do.
+    fn unify_join_keys(&mut self, lkeys: Id, rkeys: Id) -> (Id, Id) {
+        let mut ls = self.node(lkeys).as_list().to_vec();
+        let mut rs = self.node(rkeys).as_list().to_vec();
+        for (l, r) in ls.iter_mut().zip(rs.iter_mut()) {
+            let (Ok(lt), Ok(rt)) = (
+                self.egraph[*l].data.type_.clone(),
+                self.egraph[*r].data.type_.clone(),
+            ) else {
+                continue;
+            };
+            if !lt.is_number()
+                || !rt.is_number()
+                || std::mem::discriminant(&lt) == std::mem::discriminant(&rt)
+            {
+                continue;
+            }
+            let wider = lt.clone().max(rt.clone());
+            let ty = self.egraph.add(Expr::Type(wider.clone()));
+            if lt != wider {
+                *l = self.egraph.add(Expr::Cast([ty, *l]));
+            }
+            if rt != wider {
+                *r = self.egraph.add(Expr::Cast([ty, *r]));
+            }
+        }
+        (
+            self.egraph.add(Expr::List(ls.into())),
+            self.egraph.add(Expr::List(rs.into())),
+        )
+    }
+
     /// Returns the catalog.
     fn catalog(&self) -> &RootCatalogRef {
         self.optimizer.catalog()
@@ -491,6 +527,7 @@ impl<S: Storage> Builder<S> {
 
     fn build_hashjoin<const T: JoinType>(&mut self, args: [Id; 6]) -> BoxedExecutor {
         let [_, cond, lkeys, rkeys, left, right] = args;
+        let (lkeys, rkeys) = self.unify_join_keys(lkeys, rkeys);
         assert_eq!(self.node(cond), &Expr::true_());
         HashJoinExecutor::<T> {
             left_keys: self.resolve_column_index(lkeys, left),
@@ -503,6 +540,7 @@ impl<S: Storage> Builder<S> {
 
     fn build_hashsemijoin(&mut self, args: [Id; 6], anti: bool) -> BoxedExecutor {
         let [_, cond, lkeys, rkeys, left, right] = args;
+        let (lkeys, rkeys) = self.unify_join_keys(lkeys, rkeys);
         if self.node(cond) == &Expr::true_() {
             HashSemiJoinExecutor {
                 left_keys: self.resolve_column_index(lkeys, left),
@@ -525,6 +563,7 @@ impl<S: Storage> Builder<S> {
 
     fn build_mergejoin<const T: JoinType>(&mut self, args: [Id; 6]) -> BoxedExecutor {
         let [_, cond, lkeys, rkeys, left, right] = args;
+        let (lkeys, rkeys) = self.unify_join_keys(lkeys, rkeys);
         assert_eq!(self.node(cond), &Expr::true_());
         MergeJoinExecutor::<T> {
             left_keys: self.resolve_column_index(lkeys, left),
